@@ -26,6 +26,9 @@ def run(ctx, rep):
     builtins.rule_live_container_iteration(ctx, rep, "C04-R14")
     builtins.rule_sort_on_a_copy(ctx, rep, "C04-R15")
     pairing.rule_undo_only_what_was_done(ctx, rep, "C04-R16")
+    from ..rules import compiler_rules
+
+    compiler_rules.rule_optional_children_tested(ctx, rep, "C04-R17")
     rep.undecided += [
         "that reported line/column are the right numbers (value property)",
         "RecursionError beyond the documented parser nesting limit",
